@@ -123,8 +123,18 @@ class Runner:
         def on_store(l, v, fr, ex):
             if l.k == "MemberExpr":
                 L[l.member] = v
-        ex = MiniExec(on_store=on_store)
-        fr = Frame({"type": self.P.enum_consts[tname][1], "m_rows": R, "m_columns": C}, {})
+        prog = self.P
+
+        def on_call(call, fr, ex):
+            # member stores made by a static helper of vnacal_layout.c (e.g. an extracted set_offsets())
+            g = prog.resolve_call(call, f)
+            if g is not None and g.body is not None and g.file == f.file and g.key() != f.key():
+                return ex.call_function(g, [ex.val(a, fr) for a in call.args()], fr)
+            return None
+        ex = MiniExec(on_store=on_store, on_call=on_call)
+        if len(f.params) != 4:
+            raise AnalysisBroken("_vnacal_layout: expected (layout, type, rows, columns) parameters")
+        fr = Frame({f.params[1]["name"]: self.P.enum_consts[tname][1], f.params[2]["name"]: R, f.params[3]["name"]: C}, {})
         try:
             frames = ex.exec(f.body, [fr])
         except Stop as e:
@@ -139,7 +149,7 @@ class Runner:
     def unity(self, tname, system):
         f = self.P.need_func("_vl_unity_offset")
         ex = MiniExec()
-        fr = Frame({"system": system}, dict(self._members))
+        fr = Frame({f.params[1]["name"]: system}, dict(self._members))
         frames = ex.exec(f.body, [fr])
         rets = {x.retval for x in frames}
         if len(rets) != 1 or UNKNOWN in rets:
@@ -354,6 +364,33 @@ def x_to_e(P, R_, run_):
     if loop is None:
         raise AnalysisBroken("_vnacal_new_solve_internal: loop inserting the unity term not found")
     XB = 100000
+    # the arrays and the running index are found by their role, not by name: destination = the array the loop stores
+    # into, index = the variable post-incremented in those subscripts, source = the array read on the right-hand sides
+    dest = src = idxvar = None
+    for n in loop.walk():
+        if n.k == "BinaryOperator" and n.op == "=" and n.kids[0].strip().k == "ArraySubscriptExpr":
+            l = n.kids[0].strip()
+            i_ = l.kids[1].strip()
+            if i_.k == "UnaryOperator" and i_.op == "++" and l.kids[0].strip().k == "DeclRefExpr":
+                dest = l.kids[0].strip().refdecl
+                idxvar = i_.kids[0].strip()
+                r_ = n.kids[1].strip()
+                if r_.k == "ArraySubscriptExpr" and r_.kids[0].strip().k == "DeclRefExpr":
+                    src = r_.kids[0].strip().refdecl
+    if dest is None or src is None or idxvar is None:
+        raise AnalysisBroken("_vnacal_new_solve_internal: stores `e[index++] = x[...]` not found in the unity-insertion loop")
+    idx0 = None
+    for v in f.vardecls():
+        if v.get("decl") == idxvar.refdecl and v.kids:
+            idx0 = v.kids[0].strip().cv
+    if idx0 is None:
+        # assigned (not initialised) before the loop: take the last constant assignment in front of it
+        for m in f.walk():
+            if m.k == "BinaryOperator" and m.op == "=" and m.kids[0].strip().k == "DeclRefExpr" and \
+                    m.kids[0].strip().refdecl == idxvar.refdecl and m.line <= loop.line and not loop.is_ancestor_of(m):
+                idx0 = m.kids[1].strip().cv
+    if idx0 is None:
+        raise AnalysisBroken("_vnacal_new_solve_internal: initial value of the error-term index not found")
     for tname, (fam, full, percol) in FAMILY.items():
         key = "R30|%s|_vnacal_new_solve_internal|x-to-e:%s" % (SF, tname)
         bad = None
@@ -367,7 +404,7 @@ def x_to_e(P, R_, run_):
             unity_fn = P.need_func("_vl_unity_offset")
 
             def on_load(e, fr, ex):
-                if e.k == "ArraySubscriptExpr" and e.kids[0].strip().refname == "x_vector":
+                if e.k == "ArraySubscriptExpr" and e.kids[0].strip().k == "DeclRefExpr" and e.kids[0].strip().refdecl == src:
                     i = ex.val(e.kids[1], fr)
                     return XB + i if i is not UNKNOWN else None
                 return None
@@ -379,7 +416,7 @@ def x_to_e(P, R_, run_):
                 return None
 
             def on_store(l, v, fr, ex):
-                if l.k == "ArraySubscriptExpr" and l.kids[0].strip().refname == "e_vector":
+                if l.k == "ArraySubscriptExpr" and l.kids[0].strip().k == "DeclRefExpr" and l.kids[0].strip().refdecl == dest:
                     i = ex.val(l.kids[1], fr)
                     if i is UNKNOWN:
                         problems.append("e_vector index not an integer at line %d" % l.line)
@@ -389,7 +426,7 @@ def x_to_e(P, R_, run_):
                         v = "one" if rhs is not None and rhs.k == "FloatingLiteral" and rhs.val == 1.0 else "?"
                     stores[i] = v
             ex = MiniExec(on_call=on_call, on_load=on_load, on_store=on_store)
-            fr = Frame({"eterm_index": 0}, members)
+            fr = Frame({idxvar.refname: idx0}, members)
             frames = ex.exec(loop, [fr])
             if len(frames) != 1 or frames[0].ambiguous or problems:
                 raise AnalysisBroken("x-to-e loop does not evaluate for %s %dx%d: %s" % (tname, R, C, problems or frames[0].ambiguous))
